@@ -144,6 +144,9 @@ type Case struct {
 	// Canon, when set, is applied to the model's reply before comparison (collapses
 	// distinctions the implementation does not expose as typed errors).
 	Canon func(string) string
+	// SpecIsOracle: the property itself says "the reference implementation reproduces this"
+	// (C05): a model/implementation disagreement on this case IS a violation, with this text.
+	SpecIsOracle string
 }
 
 type Finding struct {
@@ -240,6 +243,10 @@ func (r *Result) Record(c *Case, model string, asked bool) {
 		s := f
 		s.Line, s.Impl, s.Model = trunc(s.Line), trunc(s.Impl), trunc(s.Model)
 		r.Samples = append(r.Samples, s)
+	}
+	if c.Oracle == "" && c.SpecIsOracle != "" && asked && model != c.Impl {
+		f.Oracle = c.SpecIsOracle
+		c.Oracle = c.SpecIsOracle
 	}
 	if c.Oracle != "" && len(r.OracleFails) < r.maxKeep {
 		r.OracleFails = append(r.OracleFails, f)
